@@ -101,7 +101,7 @@ def leaf(cls, shape, rs, regime, key):
             b = bj.Vmap(b, axis_size=int(ext))
         return b
     if cls in ("PlanarLeaky", "PlanarTanh"):
-        b = bj.Planar(key, dim=shape[0], negative_slope=0.1 if cls == "PlanarLeaky" else None, width_size=4, depth=1)
+        b = bj.Planar(key, dim=shape[0], negative_slope=[0.1, 2.0, 0.5, 3.0, 1.0][var] if cls == "PlanarLeaky" else None, width_size=4, depth=1)
         return perturb(b, rs, max(sc, 0.5) * 1.5)
     if cls == "AdditiveCondition":
         return bj.AdditiveCondition(_lin(rs, n, 2, shape), shape, (2,))
@@ -360,7 +360,7 @@ def specs(tier: str, seed: int, tlc_cases: list | None = None):
     for cls in LEAF_CLASSES:
         regimes = ["init", "perturbed"]
         if cls in ("Affine", "Reshape", "LeakyTanh", "RationalQuadraticSpline", "RationalQuadraticSplineOffCentre", "VmapSpline",
-                   "BlockAutoregressiveNetworkDeep"):
+                   "BlockAutoregressiveNetworkDeep", "PlanarLeaky"):
             regimes.append("negscale")
         if cls in ("BlockAutoregressiveNetworkDeep", "MaskedAutoregressiveWide"):
             regimes.append("wild")
